@@ -10,6 +10,8 @@ Unit directory layout (under /verif/kani/<unit>/):
 """
 import json
 import os
+import sys
+sys.path.insert(0, os.path.dirname(os.path.abspath(__file__)))
 import re
 import shutil
 import subprocess
@@ -36,6 +38,7 @@ def prepare(uname, ucfg, repo, scratch, here):
     if not os.path.isdir(reposrc):
         shutil.copytree(os.path.join(repo, "src"), reposrc)
     rewrites = []
+    extracted = []
     for root, _, files in os.walk(dst):
         for f in files:
             if not (f.endswith(".rs") or f.endswith(".toml")):
@@ -52,6 +55,11 @@ def prepare(uname, ucfg, repo, scratch, here):
                     text = text.replace(a, b)
                 open(os.path.join(root, new), "w").write(text)
                 rewrites.append({"file": rel, "as": new, "rules": applied})
+            if "//@ FROM" in s:
+                import vpx
+                u = vpx.build_unit(s, os.path.dirname(reposrc.rstrip("/")) if False else repo, here)
+                s = u["text"]
+                extracted.extend(u["blocks"])
             s = s.replace("@REPO@", reposrc).replace("@SHIMS@", os.path.join(here, "kani", "shims")).replace("@CRATE@", dst)
             open(p, "w").write(s)
     lock = os.path.join(repo, "Cargo.lock")
@@ -59,7 +67,7 @@ def prepare(uname, ucfg, repo, scratch, here):
         lock = "/repo/Cargo.lock"
     if os.path.exists(lock) and not os.path.exists(os.path.join(dst, "Cargo.lock")) and not ucfg.get("no_lock"):
         shutil.copy(lock, os.path.join(dst, "Cargo.lock"))
-    return dst, rewrites
+    return dst, rewrites, extracted
 
 
 def parse(out):
@@ -86,7 +94,9 @@ def run_kani_unit(uname, ucfg, repo, scratch, here, tier, only=None):
            "functions": [{"file": f, "item": "(whole file, verbatim)", "impl": "-", "text_identical_to_repo": True, "changed_tokens": 0, "sha256": ""} for f in ucfg.get("files", [])]}
     t0 = time.time()
     try:
-        crate, rewrites = prepare(uname, ucfg, repo, scratch, here)
+        crate, rewrites, extracted = prepare(uname, ucfg, repo, scratch, here)
+        res["functions"] += [{"file": b["file"], "item": b["item"], "impl": b["impl"], "text_identical_to_repo": b["identical"],
+                              "changed_tokens": b["stats"]["changed_tokens"], "sha256": b["sha256_repo_item"]} for b in extracted]
     except Exception as e:
         res["status"] = "undecided"
         res["errors"].append({"kind": "extract", "message": f"{type(e).__name__}: {e}"})
